@@ -130,7 +130,11 @@ func (m *mulNorm) src(n ast.Node) string {
 	if err := printer.Fprint(&b, m.fset, n); err != nil {
 		return "?print-error?"
 	}
-	return strings.Join(strings.Fields(b.String()), " ")
+	// collapse the layout of the source (line breaks inside parameter lists / calls)
+	t := strings.Join(strings.Fields(b.String()), " ")
+	t = strings.ReplaceAll(t, "( ", "(")
+	t = strings.ReplaceAll(t, ", )", ")")
+	return t
 }
 
 func (m *mulNorm) stmtSrc(s ast.Stmt) string {
